@@ -205,6 +205,19 @@ func init() {
 		p, _ := args[0].(string)
 		return fmt.Sprintf("%sfresh%04d", p, fr.i.idSeq)
 	}
+	// crypto/rand.Read: random ids never collide — every 8-byte word drawn on a path is distinct
+	// (concrete counter values; the same "fresh id" assumption as newHexID).
+	symExternals["crypto/rand.Read"] = func(fr *frame, args []value) value {
+		b := args[0].([]value)
+		for i := range b {
+			if i%8 == 0 {
+				fr.i.idSeq++
+			}
+			w := uint64(0xf1e5000000000000) + uint64(fr.i.idSeq)
+			b[i] = uint8(w >> (8 * uint(7-i%8)))
+		}
+		return tuple{len(b), iface{}}
+	}
 	// sort.Slice: insertion sort driven by the real less closure.
 	symExternals["sort.Slice"] = func(fr *frame, args []value) value {
 		sl := args[0].(iface).v.([]value)
